@@ -3,11 +3,15 @@ package main
 // Ops of the Obj family (C18 random filling, C09 object reuse, C07 result transcoders).
 import (
 	"bytes"
+	"encoding/json"
 	"fmt"
 	"os"
 	"reflect"
+	"sort"
 	"strconv"
 	"strings"
+	"sync"
+	"sync/atomic"
 	"time"
 
 	"github.com/VKCOM/tl/pkg/basictl"
@@ -165,6 +169,55 @@ func objAfterFill(obj meta.Object, name string, again func() meta.Object) string
 		rep = "diff"
 	}
 	return "ok " + hx(w) + " j=" + js + " t2=" + ts + " rep=" + rep
+}
+
+func init() {
+	// oconc <name> <seed> <k> <m>: k goroutines, each with its OWN RandGenerator over the scripted source of <seed>, fill a fresh
+	// object of the type m times concurrently; every result must equal the sequential reference for that seed.
+	// result: ok <reference TL1 boxed hex> conc=<same | diff:<number of differing fills> | panic>
+	ops["oconc"] = func(f []string) string {
+		seed, _ := strconv.ParseUint(f[2], 10, 64)
+		k, _ := strconv.Atoi(f[3])
+		m, _ := strconv.Atoi(f[4])
+		ref := objFill(f[1], seed)
+		if ref == nil {
+			return "driver-error no object " + f[1]
+		}
+		w, err := ref.WriteTL1BoxedGeneral(nil)
+		if err != nil {
+			return "writeerr"
+		}
+		defer objWatch(30*time.Second, "concurrent FillRandom "+f[1])()
+		var wg sync.WaitGroup
+		var diff, panics int64
+		for g := 0; g < k; g++ {
+			wg.Add(1)
+			go func() {
+				defer wg.Done()
+				defer func() {
+					if r := recover(); r != nil {
+						atomic.AddInt64(&panics, 1)
+					}
+				}()
+				for it := 0; it < m; it++ {
+					obj := factory.CreateObjectFromName(f[1])
+					obj.FillRandom(basictl.NewRandGenerator(&objRand{srand: srand{s: seed}, max: objDrawBudget}))
+					w2, err := obj.WriteTL1BoxedGeneral(nil)
+					if err != nil || !bytes.Equal(w, w2) {
+						atomic.AddInt64(&diff, 1)
+					}
+				}
+			}()
+		}
+		wg.Wait()
+		switch {
+		case panics != 0:
+			return "ok " + hx(w) + " conc=panic"
+		case diff != 0:
+			return "ok " + hx(w) + " conc=diff:" + strconv.FormatInt(diff, 10)
+		}
+		return "ok " + hx(w) + " conc=same"
+	}
 }
 
 func init() {
@@ -456,10 +509,43 @@ func objCmp(a, b string, what string) string {
 		return "same"
 	}
 	fa, fb := strings.Fields(a), strings.Fields(b)
-	if len(fa) == 3 && len(fb) == 3 && fa[0] == fb[0] && fa[2] == fb[2] && fb[1] == "j:panic" {
+	// the fresh object's JSON (and TL2) writer panics on a nil pointer the reused object has allocated; TL1 bytes equal
+	if len(fa) == 3 && len(fb) == 3 && fa[0] == fb[0] && fb[1] == "j:panic" && fa[1] != "j:panic" &&
+		(fa[2] == fb[2] || fb[2] == "2:panic") {
 		return "DIFF:" + what + ":fresh-json-panic"
 	}
 	return "DIFF:" + what
+}
+
+// objNew: the object of a factory item; bytesVersion selects CreateObjectBytes ([]byte strings, slice-backed dictionaries)
+func objNew(name string, bytesVersion bool) meta.Object {
+	if !bytesVersion {
+		return factory.CreateObjectFromName(name)
+	}
+	it := meta.FactoryItemByTLName(name)
+	if it == nil {
+		return nil
+	}
+	return it.CreateObjectBytes()
+}
+
+// objDropKey: the JSON document with its k-th (sorted) top-level key removed; nil when the document is not an object with keys
+func objDropKey(doc []byte, k int) []byte {
+	var m map[string]json.RawMessage
+	if err := json.Unmarshal(doc, &m); err != nil || len(m) == 0 {
+		return nil
+	}
+	keys := make([]string, 0, len(m))
+	for key := range m {
+		keys = append(keys, key)
+	}
+	sort.Strings(keys)
+	delete(m, keys[k%len(keys)])
+	out, err := json.Marshal(m)
+	if err != nil {
+		return nil
+	}
+	return out
 }
 
 // one decode step into obj; returns verdict ("ok <consumed>" | "eof" | "reject" | "na")
@@ -512,6 +598,19 @@ func objStep(obj meta.Object, name string, kind string, in []byte) string {
 			return "reject"
 		}
 		return "ok " + strconv.Itoa(len(b)-len(rest))
+	case strings.HasPrefix(kind, "jo"): // the value's JSON document with one top-level field ABSENT
+		b, ok := conv(false)
+		if !ok {
+			return "na"
+		}
+		k, _ := strconv.Atoi(kind[2:])
+		if b = objDropKey(b, k); b == nil {
+			return "na"
+		}
+		if err := objReadJSON(obj, b); err != nil {
+			return "reject"
+		}
+		return "ok 0"
 	case kind == "j" || strings.HasPrefix(kind, "jt"):
 		b, ok := conv(false)
 		if !ok {
@@ -534,15 +633,20 @@ func init() {
 	// One object is reused through the whole history; every step is also applied to a fresh object.
 	// result: one entry per step, separated by " ; ":
 	//    <verdict of the reused object>,<its TL1 boxed re-encoding | - >,<same | DIFF:<what>>
-	ops["ohist"] = func(f []string) string {
+	ops["ohistb"] = func(f []string) string { return objHist(f, true) } // the same on the bytes version of the object
+	ops["ohist"] = func(f []string) string { return objHist(f, false) }
+}
+
+func objHist(f []string, bytesVersion bool) string {
+	{
 		name := f[1]
-		obj := factory.CreateObjectFromName(name)
+		obj := objNew(name, bytesVersion)
 		if obj == nil {
 			return "driver-error no object " + name
 		}
 		var out []string
 		for _, st := range f[2:] {
-			fresh := factory.CreateObjectFromName(name)
+			fresh := objNew(name, bytesVersion)
 			if st == "R" {
 				if !objReset(obj) {
 					out = append(out, "na,-,same")
